@@ -5,6 +5,12 @@ pub use compiler::App;
 pub use diagnostic::DiagnosticSink;
 pub use persistence::AppWriter;
 
+/// Verification hooks for the compile-time rule checks.
+#[cfg(pavex_verif)]
+pub mod verif_rules {
+    pub use crate::compiler::verif_find_cycles as find_cycles;
+}
+
 mod compiler;
 mod diagnostic;
 pub(crate) mod language;
